@@ -26,6 +26,9 @@ REFPAT = {
     # a typed select value whose member is a defined aggregate of references
     'typed-select-aggregate': ["#4=KT(%V,TGT_LIST((#1,#2)));"],
     'typed-select-aggregate-fwd': ["#4=KT(%V,TGT_LIST((#5,#1)));", "#5=TGT(%V5);"],
+    # a reference held in an explicitly redeclared attribute (SELF\\hold.item : tgtsub) - read through the redefining attribute
+    'redeclared-attribute': ["#4=SHOLD(#5,'t%V',%V);", "#5=TGTSUB(%V5,7);"],
+    'redeclared-attribute-backward': ["#4=TGTSUB(%V4,7);", "#5=SHOLD(#4,'t%V',%V);"],
     'none': [],
 }
 IDPAT = {
@@ -38,6 +41,9 @@ IDPAT = {
     # legal but unusual: the largest id is not on the last instance (and the last one lies a whole thousand below it)
     'high-first': lambda i: {1: 2003, 2: 2004, 3: 10, 4: 11, 5: 12}[i],
     'high-middle': lambda i: {1: 7, 2: 5999, 3: 8, 4: 9, 5: 10}[i],
+    # the LAST instance carries the largest id, thousands above all the others (and another id lies between)
+    'gap-last-4': lambda i: {1: 10, 2: 20, 3: 3000, 4: 5000, 5: 15}[i],
+    'gap-last-5': lambda i: {1: 10, 2: 20, 3: 3000, 4: 40, 5: 5000}[i],
 }
 
 
@@ -48,6 +54,8 @@ def schema():
     fam.add(smodel.Entity('ks', [smodel.Attr('n', S('INTEGER')), smodel.Attr('sels', A('LIST', 0, None, N('selent'))), smodel.Attr('mix', A('SET', 0, None, N('selmix')))]))
     fam.add(smodel.TypeDecl('tgt_list', A('LIST', 0, None, N('tgt'))), smodel.TypeDecl('sel_tl', ('select', ['tgt_list', 'dstr'])),
             smodel.Entity('kt', [smodel.Attr('n', S('INTEGER')), smodel.Attr('pick', N('sel_tl'))]))
+    fam.add(smodel.Entity('hold', [smodel.Attr('item', N('tgt')), smodel.Attr('tag', S('STRING'))]),
+            smodel.Entity('shold', [smodel.Attr('item', N('tgtsub'), redeclares='hold'), smodel.Attr('extra', S('INTEGER'))], supers=['hold']))
     return fam
 
 
